@@ -56,7 +56,16 @@ type zzC19Svc struct {
 	reqs  []*dns.Msg
 	junk  bool
 	nJunk int
+	// fail makes every Exchange return an error (the fault of the spec's
+	// LookupFails); nFail counts the failures that really showed.
+	fail  bool
+	nFail int
 }
+
+// zzC19ErrSvc is the error of a failing lookup service.
+type zzC19ErrSvc struct{}
+
+func (zzC19ErrSvc) Error() (msg string) { return "zzc19: lookup service: i/o timeout" }
 
 func (s *zzC19Svc) Address() (addr string) { return "zzc19.mock" }
 func (s *zzC19Svc) Close() (err error)     { return nil }
@@ -95,9 +104,28 @@ func zzC19ParseQuestion(name string) (prefs []string, ok bool) {
 
 func (s *zzC19Svc) Exchange(req *dns.Msg) (resp *dns.Msg, err error) {
 	s.reqs = append(s.reqs, req.Copy())
+	if s.fail && s.rng.Intn(2) == 0 {
+		s.nFail++
+
+		return nil, zzC19ErrSvc{}
+	}
+
 	resp = (&dns.Msg{}).SetReply(req)
 	if len(req.Question) != 1 {
 		return resp, nil
+	}
+
+	if s.fail {
+		// The other kind of failure: the error comes with a garbled,
+		// truncated message (built below as usual, cut short at the end).
+		defer func() {
+			s.nFail++
+			resp.Truncated = true
+			if n := len(resp.Answer); n > 0 {
+				resp.Answer = resp.Answer[:s.rng.Intn(n)+1]
+			}
+			err = zzC19ErrSvc{}
+		}()
 	}
 
 	prefs, _ := zzC19ParseQuestion(req.Question[0].Name)
@@ -340,6 +368,8 @@ type zzC19StepOut struct {
 	Q    []string            `json:"q"`
 	V    bool                `json:"v"`
 	OK   bool                `json:"ok"`
+	F    bool                `json:"f"`
+	E    bool                `json:"e"`
 	Why  string              `json:"why,omitempty"`
 	Host string              `json:"host,omitempty"`
 	QN   []string            `json:"qn,omitempty"`
@@ -576,7 +606,7 @@ func TestZZVerifC19Walk(t *testing.T) {
 	}
 	sort.Slice(tempt, func(i, j int) bool { return string(tempt[i][:]) < string(tempt[j][:]) })
 
-	steps, nJunk := 0, 0
+	steps, nJunk, nFail := 0, 0, 0
 	synctest.Run(func() {
 		for _, w := range walks {
 			svc := &zzC19Svc{rng: rng, db: map[zzC19Hash]bool{}, tempt: tempt, junk: true}
@@ -606,7 +636,7 @@ func TestZZVerifC19Walk(t *testing.T) {
 					} else {
 						svc.db[h] = true
 					}
-				case "c":
+				case "c", "f":
 					var key string
 					_ = json.Unmarshal(st[1], &key)
 					ni, ok := byKey[key]
@@ -616,15 +646,18 @@ func TestZZVerifC19Walk(t *testing.T) {
 					host := strings.Join(names[ni], ".")
 					// Every other answer carries no junk at all.
 					svc.junk = rng.Intn(4) != 0
+					svc.fail = kind == "f"
 					t0 := time.Now()
 					blocked, err := chk.Check(host)
 					if !time.Now().Equal(t0) {
 						t.Fatalf("c19: virtual time moved during Check")
 					}
+					svc.fail = false
 					prefs, qn, ok, why := svc.zzC19Observe(host, zzC19Chain(names[ni]))
 					so.V, so.OK, so.Why, so.Host, so.QN = blocked, ok, why, host, qn
+					so.F, so.E = kind == "f", err != nil
 					if err != nil {
-						so.OK, so.Why = false, "error: "+err.Error()
+						so.Why += " error: " + err.Error()
 					}
 					for _, p := range prefs {
 						if cl, known := classOf[p]; known {
@@ -663,6 +696,7 @@ func TestZZVerifC19Walk(t *testing.T) {
 				out.put(so)
 			}
 			nJunk += svc.nJunk
+			nFail += svc.nFail
 		}
 	})
 
@@ -676,7 +710,7 @@ func TestZZVerifC19Walk(t *testing.T) {
 	}
 	out.put(map[string]any{"summary": map[string]any{
 		"steps": steps, "walks": len(walks), "hashes_tried": conc.tried, "classes": cl, "names": cn,
-		"junk_strings": nJunk,
+		"junk_strings": nJunk, "failed_lookups": nFail,
 	}})
 }
 
@@ -693,6 +727,8 @@ type zzC19TraceLine struct {
 	Q   []string       `json:"q"`
 	V   bool           `json:"v"`
 	OK  bool           `json:"ok"`
+	F   bool           `json:"f"`
+	E   bool           `json:"e"`
 	// not read by the trace spec
 	Why  string   `json:"why,omitempty"`
 	Host string   `json:"host,omitempty"`
@@ -880,11 +916,16 @@ func TestZZVerifC19Trace(t *testing.T) {
 					host := strings.Join(labels, ".")
 					chain := zzC19Chain(labels)
 					svc.junk = rng.Intn(4) != 0
+					// Seeded fault schedule: one lookup in nine meets a
+					// failing service.
+					svc.fail = rng.Intn(9) == 0
+					failing := svc.fail
 					t0 := time.Now()
 					blocked, err := chk.Check(host)
 					if !time.Now().Equal(t0) {
 						t.Fatalf("c19: virtual time moved during Check")
 					}
+					svc.fail = false
 					prefs, qn, ok, why := svc.zzC19Observe(host, chain)
 					l := zzC19NewLine("check", w)
 					cut, opt := zzC19PSL(labels)
@@ -893,8 +934,9 @@ func TestZZVerifC19Trace(t *testing.T) {
 					if l.Q == nil {
 						l.Q = []string{}
 					}
+					l.F, l.E = failing, err != nil
 					if err != nil {
-						l.OK, l.Why = false, "error: "+err.Error()
+						l.Why += " error: " + err.Error()
 					}
 					checks++
 					if blocked {
